@@ -169,7 +169,7 @@ def translate(lean_name, region, cpp, nparams, qrx, extra):
         raise TranslateError(f"{REL}:{cpp}: the overloads at lines {[x[1]['line'] for x in out]} differ")
     fn = out[0][1]
     doc = f"/-- {REL}:{', '.join(str(x[1]['line']) for x in out)}  `{cpp}({' '.join(fn['params'].split())}) {fn['quals']}` -/"
-    return doc + "\n" + out[0][0], dict(lean=lean_name, file=REL, lines=[x[1]["line"] for x in out], cpp=cpp)
+    return doc + "\n" + out[0][0], dict(lean=lean_name, file=REL, lines=[x[1]["line"] for x in out], extents=[[x[1]["line"], x[1]["end_line"]] for x in out], cpp=cpp)
 
 
 PRELUDE = """/-
